@@ -28,4 +28,8 @@ CONTRACTS = [c13_variant(AsyncCall), c13_variant(AsyncMethod), _ka13(AsyncCall, 
 
 def extra_contracts():
     from .common import mimic_variants
-    return mimic_variants("C13")
+    from .C02 import _metrics_exit_never_raises
+    # "cancelling any caller never ... disturbs the other callers": the shared invocation runs in a copy of the first caller's
+    # context; when that caller is cancelled and its scope completes, scopes the invocation opens afterwards are made under a
+    # completed scope and must detach cleanly (C09's completion protocol) - otherwise the invocation fails for everybody
+    return mimic_variants("C13") + _metrics_exit_never_raises("C13")
